@@ -73,7 +73,18 @@ def build(mw):
         del r.headers['Content-Type']
         return r
 
-    routes = [('/return_big_http', return_big_http), ('/noct', no_content_type), ('/ok', ok), ('/small', small), ('/bin', binary), ('/ctx', ctx, render_basic), ('/redir', redir),
+    def big_no_content_type():
+        r = Response('compressible ' * 400)
+        del r.headers['Content-Type']
+        return r
+
+    def raise_no_content_type():
+        e = BadRequest('no content type')
+        del e.headers['Content-Type']
+        raise e
+
+    routes = [('/return_big_http', return_big_http), ('/noct', no_content_type), ('/bignoct', big_no_content_type),
+              ('/raise_noct', raise_no_content_type), ('/ok', ok), ('/small', small), ('/bin', binary), ('/ctx', ctx, render_basic), ('/redir', redir),
               ('/raise_http', raise_http), ('/return_http', return_http), ('/nb', nb), ('/boom', boom),
               GET('/getonly', ok)]
     return Application(routes, middlewares=[mw] if mw is not None else [])
@@ -86,6 +97,8 @@ def send(app, req):
     headers = {}
     if req.get('accept_encoding') is not None:
         headers['Accept-Encoding'] = req['accept_encoding']
+    if req.get('user_agent') is not None:
+        headers['User-Agent'] = req['user_agent']
     if req.get('cookie') is not None:
         cl = Client(app, Response, use_cookies=False)
         headers['Cookie'] = req['cookie']
